@@ -16,7 +16,9 @@ from . import common as C
 
 THEOREMS = ["propagate_lfp", "propagate_order_irrelevant", "flatten_labels_nodup", "block_compile", "segmentation",
             "flatten_correct", "saved_complete", "flatten_correct_frame", "saved_incomplete_counterexample",
-            "erase_correct", "machine_exec_sound", "interp_sound"]
+            "erase_correct", "machine_exec_sound", "interp_sound", "return_resume", "return_reeval_counterexample",
+            "panic_resume_counterexample", "panic_resume_partial", "flatten_correct_defer_partial", "callDefF_sound",
+            "andor_flat", "args_order"]
 
 MODV = 1009
 ZERO = 12          # pseudo variable: constant 0
@@ -45,7 +47,9 @@ class Gen:
         self.calls = []     # dict(kind, callee, arg, dst, k, go)
         self.nsites = 0
         self.nlabels = 0
-        self.fns = []       # dict(body, exprY)
+        self.fns = []       # dict(body, exprY, dfn)
+        self.dops = []      # deferred closures: dict(ops, go)
+        self.plan = []      # plan[fi] = True: function fi is a D function (deferred calls, blocking return)
         self.kinds = {}
 
     def count(self, k):
@@ -104,6 +108,60 @@ class Gen:
         self.calls.append(c)
         return len(self.calls) - 1
 
+    def new_dfncall(self, j):
+        self.count("fn:dfn")
+        c = dict(kind=3, callee=j, arg=self.anyvar(), dst=self.dstvar(), k=0, go="direct")
+        self.calls.append(c)
+        return len(self.calls) - 1
+
+    def new_closure(self, dfn, recover=False, must_yield=False):
+        """a deferred call of a D function: op list over the locals the return expression reads"""
+        r = self.rng
+        vars_ = [0, 1, 2] + ([6] if dfn["named"] else []) + ([7] if dfn["named"] and dfn["nres"] == 2 else [])
+        go = "closure" if recover else r.choice(["closure", "closure", "direct", "method"])
+        self.count("defer:" + go)
+        if go == "direct":
+            v = r.choice([0, 1, 2])
+            ops = [("m", v, 1, r.randrange(1, 30)), ("y", self.site()), ("m", v, 2, 0)]
+        elif go == "method":
+            v = r.choice([0, 1, 2])
+            ops = [("m", v, 1, r.randrange(1, 30)), ("y", self.site())]
+        else:
+            ops = [("r",)] if recover else []
+            n = r.randrange(1, 5)
+            yielded = False
+            for i in range(n):
+                k = r.random()
+                if k < 0.5:
+                    ops.append(("m", r.choice(vars_), r.choice([1, 2, 3]), r.randrange(0, 30)))
+                elif k < 0.85 and self.nsites < 60:
+                    ops.append(("y", self.site()))
+                    yielded = True
+                else:
+                    ops.append(("p", len(self.dops), r.choice(vars_)))
+            if must_yield and not yielded:
+                ops.insert(r.randrange(1 if recover else 0, len(ops) + 1), ("y", self.site()))
+            if not any(o[0] == "m" for o in ops):
+                ops.insert(r.randrange(1 if recover else 0, len(ops) + 1), ("m", r.choice(vars_), 2, r.randrange(1, 30)))
+        self.dops.append(dict(ops=ops, go=go))
+        return len(self.dops) - 1
+
+    def new_return(self, dfn):
+        """`return e1[, e2]` of a D function: call-free expressions over params / locals (results = locals 6, 7)"""
+        r = self.rng
+        acts = []
+        for slot in range(dfn["nres"]):
+            shape = r.random()
+            x = r.choice([0, 1, 2])
+            if shape < 0.5:
+                acts.append(self.new_act(dst=6 + slot, x=x, y=ZERO, k=0, p=0))          # return x
+            elif shape < 0.75:
+                acts.append(self.new_act(dst=6 + slot, x=x, y=ZERO, k=r.randrange(1, 9), p=0))   # return x + k
+            else:
+                acts.append(self.new_act(dst=6 + slot, x=x, y=r.choice([0, 1, 2]), k=r.randrange(0, 9), p=0))
+        self.count("dreturn:%s:%d" % ("named" if dfn["named"] else "unnamed", dfn["nres"]))
+        return ("RD", acts)
+
     # ctx: dict(fi, nf, depth, ld (loop depth), loops [(label|None, ref list)], brk [(label|None, ref list)], exprY, budget)
     def stmts(self, ctx, n, tail_branch=True):
         out = []
@@ -121,6 +179,10 @@ class Gen:
         w = {"act": 5, "leaf": 3, "yield": 2}
         if ctx["fi"] + 1 < ctx["nf"]:
             w["fn"] = 2
+        dfn = ctx.get("dfn")
+        if dfn:
+            w["defer"] = 1.2
+            w["return"] = 1.0
         if d < 3:
             w["if"] = 3
             w["switch"] = 2
@@ -133,7 +195,7 @@ class Gen:
             if ctx["loops"]:
                 w["continue"] = 1.5
             if d > 0:
-                w["return"] = 0.5
+                w["return"] = 0.5 if not ctx.get("dfn") else 1.5
         ks = list(w)
         k = r.choices(ks, [w[x] for x in ks])[0]
         self.count("stmt:" + k)
@@ -144,10 +206,20 @@ class Gen:
         if k == "yield":
             return ("C", self.new_yield())
         if k == "fn":
-            return ("C", self.new_fncall(r.randrange(ctx["fi"] + 1, ctx["nf"])))
+            j = r.randrange(ctx["fi"] + 1, ctx["nf"])
+            if self.plan[j]:
+                return ("C", self.new_dfncall(j))
+            return ("C", self.new_fncall(j))
+        if k == "defer":
+            return ("DEFER", self.new_closure(dfn, must_yield=r.random() < 0.5))
         if k == "block":
             return ("{", self.stmts(dict(ctx, depth=d + 1), r.randrange(1, 3)))
         if k == "return":
+            if dfn:
+                if dfn["panics"] and r.random() < 0.4:
+                    self.count("dpanic")
+                    return ("PANIC",)
+                return self.new_return(dfn)
             return ("R",)
         if k == "break":
             cands = [x for x in ctx["brk"] if x[0] is not None]
@@ -241,14 +313,51 @@ class Gen:
         ctx = dict(fi=fi, nf=nf, depth=0, ld=0, loops=[], brk=[], exprY=exprY, budget=[self.size])
         body = self.stmts(ctx, self.rng.randrange(2, 6), tail_branch=False)
         body.append(("R",))
-        self.fns.append(dict(body=body, exprY=exprY))
+        self.fns.append(dict(body=body, exprY=exprY, dfn=None))
+
+    def gen_dfn(self, fi, nf):
+        """a function with deferred calls that yield and modify what the return expression reads"""
+        r = self.rng
+        named = r.random() < 0.35
+        # a recovered panic in a function with UNNAMED results loses the result when a deferred call suspends
+        # (known finding C02-panic-zero-result-lost-on-resume, replayed separately): the general stream panics only
+        # in functions with named results
+        dfn = dict(named=named, nres=r.choice([1, 1, 2]), panics=named and r.random() < 0.6)
+        self.count("dfn:%s%s" % ("named" if dfn["named"] else "unnamed", ":panics" if dfn["panics"] else ""))
+        ctx = dict(fi=fi, nf=nf, depth=0, ld=0, loops=[], brk=[], exprY=False, budget=[min(self.size, 10)], dfn=dfn)
+        body = []
+        if dfn["panics"]:
+            body.append(("DEFER", self.new_closure(dfn, recover=True, must_yield=r.random() < 0.5)))
+        body.append(("A", self.new_act(dst=1, x=0, y=ZERO, k=r.randrange(1, 30), p=1)))
+        body.append(("A", self.new_act(dst=2, x=0, y=1, k=r.randrange(1, 30), p=0)))
+        ndef = r.randrange(1, 4)
+        for i in range(ndef):
+            body.append(("DEFER", self.new_closure(dfn, must_yield=(i == 0 or r.random() < 0.6))))
+            if r.random() < 0.5:
+                body.append(("A", self.new_act(dst=r.choice([0, 1, 2]), x=r.choice([0, 1, 2]), y=ZERO, k=r.randrange(1, 9))))
+        body += self.stmts(ctx, r.randrange(0, 4), tail_branch=False)
+        if dfn["panics"] and r.random() < 0.5:
+            self.count("dpanic")
+            body.append(("PANIC",))
+        else:
+            body.append(self.new_return(dfn))
+        self.fns.append(dict(body=body, exprY=False, dfn=dfn))
 
 
 def gen_program(rng, size):
     g = Gen(rng, size)
     nf = rng.randrange(1, 5)
+    g.plan = [fi > 0 and rng.random() < 0.45 for fi in range(nf)]
     for fi in range(nf):
-        g.gen_fn(fi, nf)
+        if g.plan[fi]:
+            g.gen_dfn(fi, nf)
+        else:
+            g.gen_fn(fi, nf)
+    # every D function is called at least once (from F0, right before its final return)
+    called = {g.calls[s_[1]]["callee"] for f in g.fns for s_ in walk(f["body"]) if s_[0] == "C" and g.calls[s_[1]]["kind"] == 3}
+    for j in range(nf):
+        if g.plan[j] and j not in called:
+            g.fns[0]["body"].insert(len(g.fns[0]["body"]) - 1, ("C", g.new_dfncall(j)))
     return g
 
 
@@ -292,6 +401,8 @@ def call_graph(g, with_yields):
         for n in ("main.leafD", "main.T.M", "main.PT.M", "main.leafG", "main.mkClo$lit", "main.yb", "main.yf", "main.yi"):
             edges.append((n, "main.yield"))
         edges.append(("main.leafDeferDirect", "main.yield"))
+        edges.append(("main.bumpD", "main.yield"))
+        edges.append(("main.cell.Bump", "main.yield"))
     edges.append(("main.leafDefer", "main.leafDefer$lit"))
     edges.append(("main.leafDefer$lit", "main.leafD"))
     edges.append(("main.leafDeferPanic", "main.leafDeferPanic$lit"))
@@ -299,8 +410,20 @@ def call_graph(g, with_yields):
     edges.append(("main.main", "main.F0"))
     for fi, f in enumerate(g.fns):
         me = "main.F%d" % fi
-        edges.append(("main.T.CallF%d" % fi, me))
+        if not f["dfn"]:
+            edges.append(("main.T.CallF%d" % fi, me))
         for s in walk(f["body"]):
+            if s[0] == "DEFER":
+                cl = g.dops[s[1]]
+                if cl["go"] == "direct":
+                    edges.append((me, "main.bumpD"))
+                elif cl["go"] == "method":
+                    edges.append((me, "main.cell.Bump"))
+                else:
+                    lit = "%s$defer%d" % (me, s[1])
+                    edges.append((me, lit))
+                    if with_yields and any(o[0] == "y" for o in cl["ops"]):
+                        edges.append((lit, "main.yield"))
             if s[0] == "C":
                 c = g.calls[s[1]]
                 if c["kind"] == 0:
@@ -308,6 +431,8 @@ def call_graph(g, with_yields):
                         intr.add(me)
                     else:
                         edges.append((me, LEAF_DECL[c["go"]]))
+                elif c["kind"] == 3:
+                    edges.append((me, "main.F%d" % c["callee"]))
                 elif c["kind"] == 1:
                     if c["go"] == "funcvalue":
                         intr.add(me)
@@ -361,6 +486,8 @@ def call_is_blocking(g, cid, blocking_fn):
     c = g.calls[cid]
     if c["kind"] == 1:
         return c["go"] == "funcvalue" or blocking_fn(c["callee"], c["go"])
+    if c["kind"] == 3:
+        return blocking_fn(c["callee"], "direct")
     return True
 
 
@@ -399,6 +526,15 @@ def enc_stmt(g, s, blocking_fn):
         return ["{"] + enc_list(g, s[1], blocking_fn)
     if k == "R":
         return ["R"]
+    if k == "RD":       # result expressions are assigned to the result slots (locals 6, 7), then `return`
+        out = []
+        for a in s[1]:
+            out += ["S", "A", str(a)]
+        return out + ["R"]
+    if k == "PANIC":
+        return ["S", "A", "4000", "R"]
+    if k == "DEFER":
+        return ["A", str(2000 + s[1])]
     if k == "B":
         return ["B", lab(s[1])]
     if k == "T":
@@ -437,7 +573,12 @@ def enc_prog(g, blocking_fn):
     conds = tab([c[:5] for c in g.conds])
     calls = tab([(c["kind"], c["callee"], c["arg"], c["dst"], c["k"]) for c in g.calls])
     fns = ";".join(",".join(enc_list(g, f["body"], blocking_fn)) for f in g.fns)
-    return "%s/%s/%s/%s" % (acts, conds, calls, fns)
+    finfo = tab([(1, 1 if f["dfn"]["named"] else 0, f["dfn"]["nres"]) if f["dfn"] else (0, 0, 0) for f in g.fns])
+
+    def op(o):
+        return {"m": "1.%d.%d.%d", "y": "2.%d", "p": "3.%d.%d", "r": "4"}[o[0]] % tuple(o[1:])
+    dops = ";".join(",".join(op(o) for o in cl["ops"]) for cl in g.dops) if g.dops else "-"
+    return "%s/%s/%s/%s/%s/%s" % (acts, conds, calls, fns, finfo, dops)
 
 
 # --------------------------------------------------------------------------------------
@@ -508,6 +649,19 @@ func leafDeferDirect(site, x, k int) (r int) {
 	r = (x + k) %% 1009
 	return r
 }
+
+func bumpD(q *int, site, k int) {
+	*q = (*q*1 + k) %% 1009
+	%(Y)s
+	*q = (*q*2 + 0) %% 1009
+}
+
+type cell struct{ v *int }
+
+func (c cell) Bump(site, k int) {
+	*c.v = (*c.v*1 + k) %% 1009
+	%(Y)s
+}
 """
 
 SCHED_JS = """//go:build js
@@ -565,10 +719,40 @@ class Render:
         if p:
             self.emit(ind, 'println("a", %d, %s)' % (aid, vname(dst)))
 
+    def rexpr(self, aid):
+        dst, x, y, k, p, ys = self.g.acts[aid]
+        if y == ZERO and k == 0:
+            return vname(x)
+        if y == ZERO:
+            return "(%s + %d) %% 1009" % (vname(x), k)
+        return "(%s + 2*%s + %d) %% 1009" % (vname(x), vname(y), k)
+
+    def defer(self, did, ind):
+        cl = self.g.dops[did]
+        ops = cl["ops"]
+        if cl["go"] == "direct":
+            self.emit(ind, "defer bumpD(&%s, %d, %d)" % (vname(ops[0][1]), ops[1][1], ops[0][3]))
+            return
+        if cl["go"] == "method":
+            self.emit(ind, "defer cell{&%s}.Bump(%d, %d)" % (vname(ops[0][1]), ops[1][1], ops[0][3]))
+            return
+        self.emit(ind, "defer func() {")
+        for o in ops:
+            if o[0] == "m":
+                self.emit(ind + 1, "%s = (%s*%d + %d) %% 1009" % (vname(o[1]), vname(o[1]), o[2], o[3]))
+            elif o[0] == "y":
+                if self.y:
+                    self.emit(ind + 1, "yield(%d)" % o[1])
+            elif o[0] == "p":
+                self.emit(ind + 1, 'println("d", %d, %s)' % (o[1], vname(o[2])))
+            else:
+                self.emit(ind + 1, "recover()")
+        self.emit(ind, "}()")
+
     def call_expr(self, cid):
         c = self.g.calls[cid]
         a = vname(c["arg"])
-        if c["kind"] == 1:
+        if c["kind"] in (1, 3):
             j = c["callee"]
             return {"direct": "F%d(%s)", "funcvalue": "fF%d(%s)", "method": "tv.CallF%d(%s)"}[c["go"]] % (j, a)
         args = "%d, %s, %d" % (c["callee"], a, c["k"])
@@ -607,6 +791,15 @@ class Render:
             if self.y:
                 self.emit(ind, "yield(%d)" % c["callee"])
             return None
+        if c["kind"] == 3:
+            if self.g.fns[c["callee"]]["dfn"]["nres"] == 2:
+                self.emit(ind, "t1, t2 = %s" % self.call_expr(cid))
+            else:
+                self.emit(ind, "t1 = %s" % self.call_expr(cid))
+                self.emit(ind, "t2 = 0")
+            self.emit(ind, 'println("D", %d, t1, t2)' % cid)
+            self.emit(ind, "%s = t1" % vname(c["dst"]))
+            return None
         st = "%s = %s" % (vname(c["dst"]), self.call_expr(cid))
         if simple:
             return st
@@ -628,6 +821,12 @@ class Render:
             self.emit(ind, "}")
         elif k == "R":
             self.emit(ind, "return v1")
+        elif k == "RD":
+            self.emit(ind, "return " + ", ".join(self.rexpr(a) for a in s[1]))
+        elif k == "PANIC":
+            self.emit(ind, 'panic("p")')
+        elif k == "DEFER":
+            self.defer(s[1], ind)
         elif k == "B":
             self.emit(ind, "break" + ("" if s[1] is None else " L%d" % s[1]))
         elif k == "T":
@@ -695,18 +894,29 @@ class Render:
         src = PRELUDE % dict(imports='import "runtime"' if self.y else "", yieldbody=ybody, Y=Y)
         self.out = [src]
         for fi, f in enumerate(g.fns):
-            self.emit(0, "func F%d(v0 int) int {" % fi)
-            self.emit(1, "var v1, v2, v3, v4, v5, v6, v7 int")
-            self.emit(1, "_, _, _, _, _, _, _ = v1, v2, v3, v4, v5, v6, v7")
+            if f["dfn"]:
+                d = f["dfn"]
+                if d["named"]:
+                    sig = "(v6 int)" if d["nres"] == 1 else "(v6, v7 int)"
+                else:
+                    sig = "int" if d["nres"] == 1 else "(int, int)"
+                self.emit(0, "func F%d(v0 int) %s {" % (fi, sig))
+                self.emit(1, "var v1, v2, v3, v4, v5, t1, t2 int")
+                self.emit(1, "_, _, _, _, _, _, _ = v1, v2, v3, v4, v5, t1, t2")
+            else:
+                self.emit(0, "func F%d(v0 int) int {" % fi)
+                self.emit(1, "var v1, v2, v3, v4, v5, v6, v7, t1, t2 int")
+                self.emit(1, "_, _, _, _, _, _, _, _, _ = v1, v2, v3, v4, v5, v6, v7, t1, t2")
             self.emit(1, "mv := tv.M")
             self.emit(1, "_ = mv")
             self.block(f["body"], 1)
             self.emit(0, "}")
             self.emit(0, "")
-            self.emit(0, "var fF%d func(int) int" % fi)
-            self.emit(0, "")
-            self.emit(0, "func (t T) CallF%d(x int) int { return F%d(x + t.pad) }" % (fi, fi))
-            self.emit(0, "")
+            if not f["dfn"]:
+                self.emit(0, "var fF%d func(int) int" % fi)
+                self.emit(0, "")
+                self.emit(0, "func (t T) CallF%d(x int) int { return F%d(x + t.pad) }" % (fi, fi))
+                self.emit(0, "")
         self.emit(0, "func main() {")
         self.emit(1, "s := schedString()")
         self.emit(1, "for i := 0; i < len(s) && i < 64; i++ {")
@@ -716,7 +926,8 @@ class Render:
         self.emit(1, "fv = leafD")
         self.emit(1, "clo = mkClo(0)")
         for fi in range(len(g.fns)):
-            self.emit(1, "fF%d = F%d" % (fi, fi))
+            if not g.fns[fi]["dfn"]:
+                self.emit(1, "fF%d = F%d" % (fi, fi))
         self.emit(1, "r := F0(0)")
         self.emit(1, 'println("r", r, g0, g1, g2, g3)')
         self.emit(0, "}")
@@ -770,16 +981,29 @@ def clean_js(js):
 
 
 def js_frames(js):
-    """returns list of (restored list, params, saved list) per (possibly nested) function, plus assigned identifiers
-    when the declaration holds a single function"""
+    """returns ([(restored list, params, saved list)] per function — nested function literals are paired by nesting,
+    the declaration's own function first), plus the assigned identifiers when the declaration holds a single function"""
     body = _COMMENT.sub("", clean_js(js))
-    rs = [([x.strip() for x in m.group(1).split(",") if x.strip()], [x.strip() for x in m.group(2).split(",") if x.strip()])
-          for m in _RESTORE.finditer(body)]
-    ss = [[x.strip() for x in m.group(2).split(",") if x.strip()] for m in _SAVE.finditer(body)]
+    ev = [(m.start(), "r", m) for m in _RESTORE.finditer(body)] + [(m.start(), "s", m) for m in _SAVE.finditer(body)]
+    ev.sort(key=lambda e: e[0])
+    stack, frames, ok = [], [], True
+    for _, k, m in ev:
+        if k == "r":
+            stack.append(([x.strip() for x in m.group(1).split(",") if x.strip()],
+                          [x.strip() for x in m.group(2).split(",") if x.strip()], len(frames)))
+            frames.append(None)
+        else:
+            if not stack:
+                ok = False
+                continue
+            rl, params, idx = stack.pop()
+            frames[idx] = (rl, params, [x.strip() for x in m.group(2).split(",") if x.strip()])
+    if stack or any(f is None for f in frames):
+        ok = False
     assigned = None
     if len(re.findall(r"\bfunction\b", body)) == 1:
         assigned = set(_ASSIGN.findall(body))
-    return rs, ss, assigned
+    return [f for f in frames if f is not None], ok, assigned
 
 
 # --------------------------------------------------------------------------------------
@@ -805,15 +1029,15 @@ def schedules_for(g, rng, tier):
     return sorted(s), False
 
 
-def run_batch(chk, progs_, tier, rng, label, do_ities=True):
+def run_batch(chk, progs_, tier, rng, label, do_ities=True, sigfn=None, scheds_override=None):
     from . import progs as PR
     jobs = []
     meta = []
     for idx, g in enumerate(progs_):
-        scheds, exhaustive = schedules_for(g, rng, tier)
+        scheds, exhaustive = schedules_for(g, rng, tier) if scheds_override is None else (scheds_override, True)
         pid = "%s%d" % (label, idx)
         jobs.append({"id": pid, "p": render(g, False), "q": render(g, True), "schedules": scheds,
-                     "native": [scheds[0], scheds[-1]], "timeout": 60})
+                     "native": [scheds[-1]] if tier == "quick" else [scheds[0], scheds[-1]], "timeout": 60})
         meta.append((pid, g, scheds, exhaustive))
     p = C.run_gvh(["-j", "6"], [json.dumps(j) for j in jobs], name="gvh_c02", timeout=3000)
     if p.returncode != 0:
@@ -889,7 +1113,7 @@ def run_batch(chk, progs_, tier, rng, label, do_ities=True):
             mt, _, ms = m.partition(" #susp=")
             model.append(mt + " |exit0")
             chk.count("suspensions:%s" % ("0" if ms == "0" else "1-3" if int(ms) <= 3 else "4-15" if int(ms) <= 15 else "16+"))
-        chk.compare("P-yield-schedules", ops, impl, model, spec=[spec] * len(ops),
+        chk.compare("P-yield-schedules", ops, impl, model, spec=[spec] * len(ops), signature=sigfn,
                     kind=lambda o, c: "Pyield", nontrivial=lambda o, c: "1" in o.split("sched=")[1])
         if any(a != spec for a in impl):
             chk.notes.append({"prog": pid, "source": srcq})
@@ -907,15 +1131,15 @@ def run_batch(chk, progs_, tier, rng, label, do_ities=True):
             if d is None:
                 chk.add_tie_break("skeleton", "prog=%s fn=F%d" % (pid, fi), "missing declaration", skels[fi])
                 continue
-            rs, ss, assigned = js_frames(d["js"])
-            if not f["exprY"]:
+            frames, _, assigned = js_frames(d["js"])
+            if not f["exprY"] and not f["dfn"]:
                 got = " ".join(js_skeleton(d["js"]))
                 chk.add_case("skeleton", "prog=%s fn=F%d %s" % (pid, fi, got), nontrivial=len(got) > 8, kindkey="skeleton")
                 if got != skels[fi]:
                     chk.add_tie_break("skeleton", "prog=%s fn=F%d" % (pid, fi), got, skels[fi])
                     chk.notes.append({"skeleton-source": srcq, "js": d["js"]})
             # I2 (model side): every model local assigned by the function is in the saved frame
-            if d["blocking"]:
+            if d["blocking"] and not f["dfn"]:
                 want = {"v0"}
                 for s in walk(f["body"]):
                     if s[0] == "A":
@@ -925,7 +1149,7 @@ def run_batch(chk, progs_, tier, rng, label, do_ities=True):
                     elif s[0] == "L" and s[3] is not None and s[3][0] == "a":
                         want.add(vname(g.acts[s[3][1]][0]))
                 want = {w for w in want if w.startswith("v")}
-                saved = set(ss[0]) if ss else set()
+                saved = set(frames[0][2]) if frames else set()
                 chk.add_case("saved-model", "prog=%s fn=F%d" % (pid, fi), kindkey="saved-model")
                 if not want <= saved:
                     chk.add_tie_break("saved-frame", "prog=%s fn=F%d" % (pid, fi), sorted(saved), sorted(want))
@@ -934,16 +1158,16 @@ def run_batch(chk, progs_, tier, rng, label, do_ities=True):
             for d in dl:
                 if "js" not in d or not d["js"]:
                     continue
-                rs, ss, assigned = js_frames(d["js"])
-                if len(rs) != len(ss):
-                    chk.add_tie_break("saved-frame", "prog=%s decl=%s" % (pid, d["name"]), "restore/save count %d/%d" % (len(rs), len(ss)), "equal")
+                frames, ok, assigned = js_frames(d["js"])
+                if not ok:
+                    chk.add_tie_break("saved-frame", "prog=%s decl=%s" % (pid, d["name"]), "unpaired $restore / $f", "paired")
                     continue
-                for (rl, params), sl in zip(rs, reversed(ss)) if len(rs) > 1 else zip(rs, ss):
+                for rl, params, sl in frames:
                     chk.add_case("saved-artefact", "prog=%s decl=%s" % (pid, d["name"]), kindkey="saved-artefact")
                     if set(rl) - {"$c"} != set(sl) or not set(params) <= set(sl):
                         chk.add_tie_break("saved-frame", "prog=%s decl=%s" % (pid, d["name"]), "restore=%s save=%s" % (rl, sl), "same sets, params included")
-                if assigned is not None and ss:
-                    extra = {a for a in assigned - set(ss[0]) - {"$c", "$f", "$err"} if not _PKGVAR.match(a)}
+                if assigned is not None and frames:
+                    extra = {a for a in assigned - set(frames[0][2]) - {"$c", "$f", "$err"} if not _PKGVAR.match(a)}
                     if extra:
                         chk.add_tie_break("saved-frame", "prog=%s decl=%s" % (pid, d["name"]), "assigned but not saved: %s" % sorted(extra), "none")
         # I3: Decl.Blocking
@@ -962,6 +1186,28 @@ def run_batch(chk, progs_, tier, rng, label, do_ities=True):
                 for nm, b in res["other_blocking"].items():
                     if not b:
                         chk.add_tie_break("decl-blocking", "prog=%s decl=%s" % (pid, nm), "False", "True (intrinsic mark)")
+
+
+SIG_PANIC = "C02 recovered-panic unnamed-result deferred-call-suspends returns-undefined"
+
+
+def witness_panic_program():
+    """func F1(v0 int) int { defer func() { recover(); yield(0) }(); panic("p") }  called from F0, result printed"""
+    import random
+    g = Gen(random.Random(0), 6)
+    g.plan = [False, True]
+    g.dops.append(dict(ops=[("r",), ("y", g.site())], go="closure"))
+    c = g.new_dfncall(1)
+    g.calls[c]["arg"], g.calls[c]["dst"] = 0, 2
+    g.fns = [dict(body=[("C", c), ("R",)], exprY=False, dfn=None),
+             dict(body=[("DEFER", 0), ("PANIC",)], exprY=False, dfn=dict(named=False, nres=1, panics=True))]
+    return g
+
+
+def sig_panic(op, impl, spec):
+    if "prog=witpanic" in op and op.endswith("sched=1") and impl == spec.replace("D 0 0 0", "D 0 undefined 0"):
+        return SIG_PANIC
+    return None
 
 
 def run(tier, seed):
@@ -986,7 +1232,7 @@ def run(tier, seed):
                        "V8/Node and the native Go toolchain behave per their specifications"]
     C.build_gvh("gvh_c02")
     chk.proof = C.check_proofs("C02", THEOREMS, tier)
-    nprog = 30 if tier == "quick" else 120
+    nprog = 24 if tier == "quick" else 120
     progs_ = []
     while len(progs_) < nprog:
         g = gen_program(chk.rng, chk.rng.choice([6, 10, 16, 24]))
@@ -999,6 +1245,9 @@ def run(tier, seed):
     bs = 40
     for i in range(0, len(progs_), bs):
         run_batch(chk, progs_[i:i + bs], tier, chk.rng, "s%dp%d_" % (seed, i))
+    # replay of the recorded defect (and its non-suspending twin, which must behave)
+    run_batch(chk, [witness_panic_program()], tier, chk.rng, "witpanic", do_ities=False, sigfn=sig_panic,
+              scheds_override=["0", "1"])
     if chk.tie_breaks and not chk.mismatches and tier == "quick":
         # an internal tie broke: widen the observable-level search before reporting
         C.log("[C02] internal tie broken (%s); widening the program search" % sorted(chk.tie_breaks))
